@@ -232,7 +232,8 @@ class ModelExport:
                     operation=model.CustomOp(
                         model.Apply("core.load_const", [signature, func])
                     ),
-                    signature=signature,
+                    # the node itself has no inputs and outputs the function value
+                    signature=op.outer_signature().to_model(),
                     inputs=inputs,
                     outputs=outputs,
                     meta=meta,
